@@ -358,6 +358,38 @@ impl Catalogue {
         cat
     }
 
+    /// All spellings of a unit that are single identifiers with exactly one reading:
+    /// (identifier, factor to base units, prefix index). The primary name comes first, then the
+    /// other bare aliases, then prefixed forms.
+    pub fn usable_forms(&self, unit: usize) -> Vec<(String, f64, Option<usize>)> {
+        let u = &self.units[unit];
+        let mut out = vec![(u.def.name.clone(), u.base_factor, None)];
+        for (alias, _, _) in &u.def.aliases {
+            if alias != &u.def.name && self.unambiguous(alias) {
+                out.push((alias.clone(), u.base_factor, None));
+            }
+        }
+        for (alias, short, long) in &u.def.aliases {
+            if !alias.chars().next().map(|c| c.is_alphabetic()).unwrap_or(false) {
+                continue;
+            }
+            for (pi, is_short) in self.accepted_prefixes(unit, *short, *long) {
+                let p = &PREFIX_TABLE[pi];
+                let spellings: Vec<String> = if is_short {
+                    p.shorts.iter().map(|s| format!("{s}{alias}")).collect()
+                } else {
+                    vec![format!("{}{alias}", p.long)]
+                };
+                for ident in spellings {
+                    if self.unambiguous(&ident) {
+                        out.push((ident, p.factor() * u.base_factor, Some(pi)));
+                    }
+                }
+            }
+        }
+        out
+    }
+
     /// true iff the identifier has exactly one reading as a unit and is no other name
     pub fn unambiguous(&self, ident: &str) -> bool {
         self.readings.get(ident).copied() == Some(1) && !self.other_names.contains(ident)
@@ -461,9 +493,18 @@ impl Catalogue {
 
     /// Physical value (magnitude in base units, base-unit vector) of a quantity.
     pub fn physical(&self, q: &VQuantity) -> Option<Phys> {
-        let (vec, factor) = self.unit_of_factors(&q.factors)?;
+        // the product of many unit factors can leave the f64 range although the final
+        // magnitude does not: accumulate with a separate binary exponent
+        let mut vec = DimVec::scalar();
+        let mut acc = Big::from_f64(q.value);
+        for f in &q.factors {
+            let u = self.unit(&f.unit)?;
+            let e = Rat::from_pair(f.exponent);
+            vec = vec.mul(&u.base_units.pow(e));
+            acc = acc.mul(Big::from_f64(prefix_factor(f.prefix) * u.base_factor).pow(e));
+        }
         Some(Phys {
-            mag: q.value * factor,
+            mag: acc.to_f64(),
             vec,
         })
     }
@@ -559,4 +600,64 @@ pub fn prelude_catalogue() -> std::rc::Rc<Catalogue> {
 
 pub fn catalogue_of(ctx: &numbat::Context) -> Catalogue {
     Catalogue::build(ctx.verif_unit_definitions())
+}
+
+/// f64 with a separate binary exponent (value = m · 2^e), so that products of many unit
+/// factors neither overflow nor underflow before the final result is formed.
+#[derive(Clone, Copy, Debug)]
+pub struct Big {
+    pub m: f64,
+    pub e: i64,
+}
+
+impl Big {
+    pub fn from_f64(x: f64) -> Big {
+        Big { m: x, e: 0 }.norm()
+    }
+    fn norm(self) -> Big {
+        if self.m == 0.0 || !self.m.is_finite() {
+            return Big { m: self.m, e: 0 };
+        }
+        // bring |m| into [1, 2)
+        let bits = self.m.abs().log2().floor() as i64;
+        Big {
+            m: self.m / 2f64.powi(bits as i32),
+            e: self.e + bits,
+        }
+    }
+    pub fn mul(self, o: Big) -> Big {
+        Big {
+            m: self.m * o.m,
+            e: self.e + o.e,
+        }
+        .norm()
+    }
+    pub fn pow(self, r: Rat) -> Big {
+        if self.m == 0.0 || !self.m.is_finite() {
+            return Big::from_f64(pow_rat(self.m, r));
+        }
+        // (m·2^e)^r = m^r · 2^(e·r); split e·r into integer and fractional part
+        let er_num = self.e as i128 * r.n;
+        let int = er_num.div_euclid(r.d);
+        let frac = (er_num.rem_euclid(r.d)) as f64 / r.d as f64;
+        Big {
+            m: pow_rat(self.m, r) * 2f64.powf(frac),
+            e: int as i64,
+        }
+        .norm()
+    }
+    pub fn to_f64(self) -> f64 {
+        if self.m == 0.0 || !self.m.is_finite() {
+            return self.m;
+        }
+        if self.e > 1100 {
+            return self.m.signum() * f64::INFINITY;
+        }
+        if self.e < -1200 {
+            return 0.0 * self.m.signum();
+        }
+        // two steps avoid overflow of the scale factor itself
+        let half = self.e / 2;
+        self.m * 2f64.powi(half as i32) * 2f64.powi((self.e - half) as i32)
+    }
 }
